@@ -61,7 +61,8 @@ def run(ctx):
         m = r.choice(mtus) if r.random() < 0.5 else r.randrange(hdr + 1, 65536)
         if m <= hdr:
             m = hdr + 1
-        ops.append("impmtu\t%s\t%s\t%d" % (ver, ",".join(opts), m))
+        # the base as the application has it: bare, under an Ethernet header, IPv6 with extension headers before TCP
+        ops.append("impmtu\t%s\t%s\t%d\t%s" % (ver, ",".join(opts), m, r.choice(["", "", "e", "h", "d", "hd", "eh"])))
     # every single-option base and every position of one MSS among NOPs
     for o in pool:
         for ver in "46":
